@@ -713,6 +713,28 @@ class Inputs:
         self.used[name] = v
         return int(v)
 
+    def real(self, name, lo=None, hi=None, lo_strict=False):
+        """A real-valued input (seconds).  Pure linear real arithmetic: use for timer durations."""
+        if self.sym:
+            c = self.ctx
+            if name in c.vars:
+                raise HarnessError(f"duplicate input {name}")
+            v = z3.Real(name)
+            c.vars[name] = v
+            if lo is not None:
+                c.add(v > _num_term(lo) if lo_strict else v >= _num_term(lo))
+            if hi is not None:
+                c.add(v <= _num_term(hi))
+            c.model = None
+            return SNum(v)
+        v = self.values.get(name)
+        if v is None:
+            v = hi if (lo_strict or lo is None) and hi is not None else (lo if lo is not None else 0)
+        if isinstance(v, (list, tuple)):
+            v = Fraction(v[0], v[1])
+        self.used[name] = v
+        return Q(v)
+
     def bool(self, name):
         if self.sym:
             c = self.ctx
